@@ -587,6 +587,10 @@ class _Grid:
                 "dX": self.dX, "dY": self.dY, "csize": self.cs, "lsize": self.ls}
 
 
+class OodBuild(Exception):
+    """The (moved) feature set is outside the domain of the property: no grid can be built over it."""
+
+
 def _build(case):
     from tracklib.core.track_collection import TrackCollection
     from tracklib.core.spatial_index import SpatialIndex
@@ -641,6 +645,19 @@ def _build(case):
             net.createSpatialIndex(res, case["margin"], False)
         return net.spatial_index, trs
     col = TrackCollection(trs)
+    if len(trs) % 3 == 1 and all(t.size() >= 2 for t in trs):
+        # derived collection: its bounding box was asked for once, its tracks were then moved in place (the
+        # collection's own noise()), and the index is built on what the collection holds NOW
+        import numpy as np
+        M.call(col.bbox)
+        np.random.seed(len(case["tracks"][0]) * 1000 + len(trs))
+        rn = M.call(col.noise, 0.4)
+        if not M.is_raised(rn):
+            M.CTX.count("collection_moved_in_place_after_bbox")
+        trs = list(col.getTracks())
+        moved = [[[o.position.getX(), o.position.getY()] for o in t] for t in trs]
+        if _predict(moved, case["res"], case["margin"]) is None:
+            raise OodBuild("after the move the cell is larger than the extent (or the extent is degenerate)")
     return SpatialIndex(col, res, case["margin"], False), trs
 
 
@@ -693,6 +710,8 @@ def run_case(case, ctx):
 
     LAST_BROKEN.clear()
     built = M.call(_build, case)
+    if M.is_raised(built) and isinstance(built.exc, OodBuild):
+        return ood(str(built.exc))
     if M.is_raised(built):
         upper = any(p[0] == P["bx1"] or p[1] == P["by1"] for t in tracks for p in t) and margin == 0
         w = {"what": "building the index failed on an in-domain feature set", "raised": built,
